@@ -102,6 +102,19 @@ def cases_for(tier, rng):
                             for prog in (side, nested):
                                 cases.append(dict(prog=prog, src=sources(kw={'seq': lst('S', items, ck), 'x': plain('outer-x')}),
                                                   K=0, fk=[], svn=svn_table()))
+    # first-/last- over two attributes in one body, in every order: each variable looks at its own attribute of the neighbours
+    for n in (2, 3, 4):
+        for xs in itertools.product(('x1', 'x2'), repeat=n):
+            for ys in itertools.product(('y1', 'y2'), repeat=n):
+                if n == 4 and rng.random() < 0.6:
+                    continue
+                for mk, mapping in ((obj, False), (mp, True)):
+                    items = [mk('E%d' % i, x=plain(xv), y=plain(yv)) for i, (xv, yv) in enumerate(zip(xs, ys))]
+                    for order in (('last-x', 'first-y'), ('first-y', 'last-x'), ('last-y', 'first-x', 'last-x', 'first-y'),
+                                  ('sequence-var-y', 'last-x', 'first-y', 'sequence-var-x')):
+                        bd = [T('[')] + [z for v in order for z in (V(v), T(','))] + [T(']')]
+                        cases.append(dict(prog=[In(N('seq'), bd, mapping=mapping)],
+                                          src=sources(kw={'seq': lst('S', items)}), K=0, fk=[], svn=svn_table(attrs=('x', 'y'))))
     # None is an element like any other (every pattern of None / string elements, every container)
     for n in range(1, 5):
         for pat in itertools.product((False, True), repeat=n):
